@@ -64,7 +64,7 @@ class ExprMixin(object):
                 return SV(None, "module", py=gl[1])
             return self.lit_value(st, gl)
         if name in self.src.classes:
-            return SV(None, "class", py=name)
+            return SV(None, "class", py=self.resolve_class_name(name))
         if name in KNOWN_MODULES:
             return SV(None, "module", py=name)
         mod = self.cur_module()
@@ -87,6 +87,28 @@ class ExprMixin(object):
         if hasattr(__import__("builtins"), name):
             return SV(None, "callable", py=("builtin", name))
         raise Undecided("unknown global name %r" % name)
+
+    def resolve_class_name(self, name):
+        """Two behave modules may define classes of the same short name (key `Name@module` for the later one):
+        a bare name means the class of the current module, else of the module sharing the longest package prefix."""
+        keys = [k for k in self.src.classes if k == name or k.startswith(name + "@")]
+        if len(keys) <= 1:
+            return name
+        mod = self.cur_module() or ""
+
+        def score(k):
+            m = self.src.classes[k].module
+            if m == mod:
+                return 1000
+            a, b = m.split("."), mod.split(".")
+            n = 0
+            while n < len(a) and n < len(b) and a[n] == b[n]:
+                n += 1
+            return n
+        best = max(keys, key=score)
+        if score(best) == score(name) and best != name:
+            return name
+        return best
 
     def singleton(self, cls):
         """A process-wide object (e.g. the `sys` module as holder of stdout/stderr)."""
